@@ -57,7 +57,7 @@ def parseTok (s : String) : Option Tok :=
 
 def stateStr : Option Obj → String
   | none => "-"
-  | some o => s!"err={s01 o.error.isSome} io={toHex16 o.ioRatio} fl={s01 o.flushing} init={s01 o.inited} ch={o.chans} fn={s01 o.hasFn}"
+  | some o => s!"err={s01 o.error.isSome} io={toHex16 o.ioRatio} fl={s01 o.flushing} init={s01 o.inited} ch={o.chans} fn={s01 o.hasFn} mi={o.maxIlen}"
 
 def evsStr (c : Ctx) : String := " ".intercalate (c.evs.reverse.map evStr)
 
